@@ -266,8 +266,9 @@ def check(col: Collector, tier: str):
         col.defer("define_ns is not `look up the first component, loop over the rest, return the cursor`: C10.R5 walks-every-component cannot be decided on this shape")
     else:
         lp = lps[0]
-        comps = _single(dn.node, src(lp.iter.value)) if isinstance(lp.iter, ast.Subscript) else None
-        all_rest = isinstance(lp.iter, ast.Subscript) and src(lp.iter.slice) == "1:" and comps is not None and "split('.')" in src(comps).replace('"', "'")
+        from sa.props._tr import deep as _deep
+        it_ = _deep(dn.node, lp.iter)             # the iterable in terms of the function's input, whatever locals name the pieces
+        all_rest = isinstance(it_, ast.Subscript) and src(it_.slice) == "1:" and src(it_.value).replace('"', "'").endswith(".split('.')")
         descends = must_assign(lp.body, cur)
         created = [c for c in ast.walk(lp) if isinstance(c, ast.Call) and call_name(c) == "NameSpaceInfo"]
         linked = len(created) == 1 and [src(a) for a in created[0].args] == [src(lp.target), cur] and \
@@ -285,11 +286,12 @@ def check(col: Collector, tier: str):
     ok = len(wraps) == 1
     if ok:
         lps = enclosing(ba.node, wraps[0], (ast.For, ast.While), pmb)
-        ok = len(lps) == 1 and isinstance(lps[0], ast.For) and src(lps[0].iter) == "range(1, depth)" and not guards(lps[0], wraps[0], pmb)
+        from sa.props._tr import range_count
+        ok = len(lps) == 1 and isinstance(lps[0], ast.For) and range_count(lps[0].iter) == ("depth", -1) and not guards(lps[0], wraps[0], pmb)
         sh = shape(parts(ba.node, wraps[0].value))
         ok = ok and sh == ["(*", "{" + src(wraps[0].targets[0]) + "}", ")"]
     col.add("C10.R6", ba.short, "one-(*x)-per-extra-indirection", ok,
-            "the (*x) wrapping must happen inside `for _ in range(1, depth)`: an `if depth > 1` wraps once and is wrong for depth >= 3", ba.loc)
+            "the (*x) wrapping must happen in a loop that runs depth - 1 times (`for _ in range(1, depth)`): an `if depth > 1` wraps once and is wrong for depth >= 3", ba.loc)
     dd = defs_of(ba.node, "depth")
     ok = len(dd) == 1 and src(dd[0]).replace(" ", "") in ("extra_deref+v.cpp_type().p_depth", "v.cpp_type().p_depth+extra_deref")
     col.add("C10.R6", ba.short, "depth=declared-pointer-depth+extra-deref", ok, f"depth = {[src(d) for d in dd]}", ba.loc)
